@@ -31,6 +31,15 @@ from harness.util import Snapshot, close, errname, fr, frs, parse_rats
 
 MAXTRACE = 5
 EPS = 2.0 ** -52
+# Three routines used to compute in the caller's integer dtype: `voronoi` squared `x - centers[q]` in it
+# (wrap-around), `ward` / `ward_quick` squared the features in it (`feature ** 2`), `average_link_graph` kept
+# integer similarity weights (assigning `-inf` raised OverflowError) and took a self-loop of the similarity graph
+# for a merge.  The clauses are demanded for those inputs since the fixes are in /repo; with False a failing case
+# of these families is only tagged `…-unfixed` (for runs against a tree without the fixes).
+INT_DTYPE_FIXED = True       # fixes 6e8a039, a17d7b6, 16a3007 are in /repo
+INT_RANGES = {"int8": (-128, 127), "uint8": (0, 255), "int16": (-32768, 32767), "uint16": (0, 65535),
+              "int32": (-(1 << 18), 1 << 18), "uint32": (0, 1 << 18), "int64": (-(1 << 18), 1 << 18)}
+LAYOUTS = [None, None, None, "F", "strided", "neg", "ro"]
 
 
 # ----------------------------------------------------------------------------------------
@@ -215,11 +224,11 @@ def _ints(v):
     return " ".join(str(int(x)) for x in v)
 
 
-def _random_forest(rng, n):
+def _random_forest(rng, n, full=False):
     """parents of a random binary forest over n items (children before parents), as merges produce"""
     roots = list(range(n))
     parents = list(range(n))
-    while len(roots) > 1 and rng.random() < 0.85:
+    while len(roots) > 1 and (full or rng.random() < 0.85):
         a, b = rng.sample(roots, 2)
         k = len(parents)
         parents.append(k)
@@ -233,7 +242,8 @@ def _presented(A, dtype=None, layout=None):
     A = np.asarray(A, float)
     out = A
     if dtype:
-        B = A.astype(dtype)
+        with np.errstate(all="ignore"):
+            B = A.astype(dtype)
         if np.array_equal(B.astype(float), A):
             out = B
     if layout == "F":
@@ -242,43 +252,92 @@ def _presented(A, dtype=None, layout=None):
         big = np.zeros((out.shape[0], 2 * out.shape[1]), dtype=out.dtype)
         big[:, ::2] = out
         out = big[:, ::2]
+    elif layout == "neg":         # negative stride along the items
+        out = out[::-1].copy()[::-1]
+    elif layout == "ro":
+        out = out.copy()
+        out.flags.writeable = False
     return out
+
+
+def _wide(rng, n, p, dtype):
+    """integral data spanning the range of an integer dtype (magnitudes far from 1): uniform, a few groups
+    far apart, or values at the ends of the range"""
+    lo, hi = INT_RANGES[dtype]
+    kind = rng.choice(["uniform", "groups", "groups", "ends"])
+    if kind == "uniform":
+        X = [[float(rng.randrange(lo, hi + 1)) for _ in range(p)] for _ in range(n)]
+    elif kind == "groups":
+        w = max(1, (hi - lo) // 40)
+        cs = [[rng.randrange(lo + w, hi - w + 1) for _ in range(p)] for _ in range(rng.choice([2, 3, 4]))]
+        X = [[float(c + rng.randrange(-w, w + 1)) for c in rng.choice(cs)] for _ in range(n)]
+    else:
+        X = [[float(rng.choice([lo, lo + 1, hi, hi - 1, (lo + hi) // 2, lo + (hi - lo) // 4])) for _ in range(p)]
+             for _ in range(n)]
+    return X
 
 
 class C14(PropertyCheck):
     id = "C14"
     title = "Partitional and hierarchical clustering return valid, consistent clusterings"
-    lean_modules = ["NipyVerif.Props.C14", "NipyVerif.Props.C14B", "NipyVerif.Props.C14C", "NipyVerif.Props.C14D", "NipyVerif.Props.C14E"]
+    lean_modules = ["NipyVerif.Props.C14", "NipyVerif.Props.C14B", "NipyVerif.Props.C14C", "NipyVerif.Props.C14D",
+                    "NipyVerif.Props.C14E", "NipyVerif.Props.C14F", "NipyVerif.Props.C14G", "NipyVerif.Props.C14Source"]
     driver = "Drivers/C14.lean"
     rule = ("cases are (data matrix, cluster count, initial labelling or restarts, iteration budget, delta) for "
             "k-means/voronoi, (data matrix, constraint graph) for the Ward family, (similarity graph) for average "
-            "link, hand-made forests with heights for the cut methods, and direct calls of the helpers, from a "
-            "seeded PRNG in two streams: dyadic numbers (binary64 exact; duplicates and tied distances/costs on "
-            "purpose) and non-dyadic ones (thirds, tenths, sevenths, 1e-3 offsets, 1e6/1e8 + small spread, "
-            "near-duplicates 1e-9 or one ulp apart, exact duplicates); 1..5 features, 2..60 items, graph shapes "
+            "link, hand-made forests with heights for the cut methods, operation histories on one WeightedForest "
+            "(cuts by count and height in any order, queries, set_height, merge_simple_branches, _label on binary / "
+            "general / chain / arbitrarily numbered forests) and direct calls of the helpers, from a seeded PRNG in "
+            "two streams: dyadic numbers (binary64 exact; duplicates and tied distances/costs on purpose) and "
+            "non-dyadic ones (thirds, tenths, sevenths, 1e-3 offsets, 1e6/1e8 + small spread, near-duplicates 1e-9 "
+            "or one ulp apart, exact duplicates); the same numbers as float32 / int8..int64 / uint8..uint32 arrays "
+            "(data spanning the dtype's range), Fortran / strided / negative-stride / read-only / 1-D layouts, labels "
+            "as int8/uint8/int32/float/bool; Labels the wrapper does not accept (other length, entries out of range), "
+            "maxiter / ninit <= 0, delta < 0; topology weights zero / cancelling / edge lengths / integers, similarity "
+            "weights integer / zero / negative / with self-loops; 1..5 features, 2..60 items, graph shapes "
             "complete/chain/ring/grid/sparse/several components/isolated/empty/tree/star, loops and parallel "
             "edges; non-trivial = at least 3 items and (k >= 2 or at least one merge); distinct by full JSON")
     assumptions = [
         "float arithmetic of NumPy (sums, means, q - s**2/n, fi*w) is compared with the exact rational model by "
-        "tolerance (1e-9 relative for k-means, 1e-13 * n p max|x|^2 for merge costs); where two exact "
+        "tolerance (1e-9 relative for k-means, 1e-13 * n p max|x|^2 for merge costs; 2^-21 relative where the "
+        "caller's float32 features / similarities are squared or averaged in single precision); where two exact "
         "costs/distances tie or nearly tie the implementation's choice is accepted if it is within that tolerance "
         "of the optimum (the first-minimum tie rule is compared exactly only on the dyadic stream)",
         "structural clauses are demanded exactly as the code stores them, on both streams: heights non-decreasing "
         "from child to parent (no tolerance), split(k) gives exactly max(k, nbcc) connected clusters for every k, "
         "partition(th) gives nbcc + #{merges with height >= th}, labels in range",
-        "the constraint graph is symmetric (an undirected topology given with both directions); "
-        "Graph.cc() and WeightedGraph.symmeterize() (scipy.sparse) are outside the model: the model "
-        "receives the undirected edge set and stops when no edge is left",
+        "the constraint graph is symmetric (an undirected topology given with both directions; its weights may be "
+        "any numbers: the Ward family ignores them); Graph.cc() and WeightedGraph.symmeterize() (scipy.sparse) are "
+        "outside the model: the model receives the undirected edge set and stops when no edge is left. A graph "
+        "given in one direction only is outside (G.cc() is direction-dependent, the merge count follows it)",
         "np.argsort is not stable on ties: ward_quick, average_link_graph and the duplicate-edge removal of "
-        "_remap / fusion are compared through replay checkers (any admissible optimal merge is accepted)",
+        "_remap / fusion are compared through replay checkers (any admissible optimal merge is accepted); "
+        "similarity graphs with repeated (parallel) edges are outside (fusion leaves a loop on the merged node)",
         "cut heights are taken above the leaves (partition at a height <= the leaves' removes them and "
         "raises ValueError; recorded as an observation)",
+        "inputs outside the property's quantifier are modelled as the refusals the code has, not demanded to "
+        "work: kmeans with Labels=None and maxiter <= 0, or ninit <= 0 (UnboundLocalError), Labels of another "
+        "length with an entry in range (IndexError, although the docstring promises a random initialisation); "
+        "_label (the numbering plot() uses) on a forest with a single-item tree, a unary or a more-than-binary "
+        "node (NumPy 2 raises ValueError on `parent == <empty>`); merge_simple_branches on a non-dendrogram makes "
+        "the children of a dropped node roots (subforest semantics) - modelled as written",
+        "WeightedForest.plot / plot_height (matplotlib drawing) are not executed",
     ]
-    level_note = ("k-means / voronoi clauses, the Ward cost algebra, the global dendrogram structure of every "
-                  "edge-constrained agglomeration and the cluster counts of split/partition are proved for all "
-                  "inputs of the exact model; floating-point rounding is outside the model and covered by the "
-                  "non-dyadic stream of the oracle")
+    level_note = ("proved for all inputs of the exact model: k-means / voronoi clauses incl. the public wrapper for "
+                  "every Labels / maxiter / delta / ninit (what is returned, what is refused, which restart), the "
+                  "early stop as a truncation of the plain Lloyd iteration, offset / unit invariance of voronoi; the "
+                  "Ward cost algebra (both cost routines), the global dendrogram structure of every edge-constrained "
+                  "agglomeration, the cluster counts of split/partition, merge_simple_branches = identity and _label "
+                  "= in-order bijection on dendrograms; formula-like source statements are regenerated into Lean "
+                  "terms and proved to be the model's (Props/C14Source). Floating-point rounding and NumPy's dtype "
+                  "promotion are outside the model: covered by the non-dyadic stream and the dtype / layout "
+                  "presentations of the oracle")
     finding_keys = {}
+
+    def translators(self):
+        from harness.core import REPO, TieBroken
+        from harness.props import c14_translate
+        return c14_translate.translate(REPO, TieBroken)
 
     # ------------------------------------------------------------------
     def generate(self, rng, tier):
@@ -304,9 +363,18 @@ class C14(PropertyCheck):
                 p = rng.choice([1, 1, 2, 3, 5])
                 gk, E = _graph(rng, n)
                 ncc = len(set(_components(n, _und(E))))
-                cases.append({"kind": "ward", "stream": stream, "p": p, "X": _data(rng, n, p, stream),
+                wide = rng.choice(list(INT_RANGES)) if stream == "dyadic" and rng.random() < 0.2 else None
+                dts = [None, None, None, "float32", "int8", "uint8", "int16", "int32", "int64"]
+                cases.append({"kind": "ward", "stream": stream, "p": p,
+                              "X": _wide(rng, n, p, wide) if wide else _data(rng, n, p, stream),
                               "graph": gk, "E": E,
                               "extra": rng.choice(["none", "none", "loops", "parallel"]),
+                              # how the caller holds the features; what the edge weights of the topology are
+                              # (ignored by the Ward family: zeros, cancelling pairs, edge lengths, integers)
+                              "xdtype": (wide if wide and rng.random() < 0.85 else rng.choice(dts))
+                              if stream == "dyadic" else None,
+                              "xlayout": rng.choice(LAYOUTS),
+                              "wmode": rng.choice(["ones", "ones", "zeros", "antisym", "lengths", "mixed", "ints"]),
                               "ks": sorted({1, 2, n, n - 1, ncc, min(n, ncc + 1), rng.randrange(1, n + 1),
                                             rng.randrange(1, n + 1)})})
         for stream, cnt in (("dyadic", na), ("nondyadic", nan)):
@@ -314,13 +382,24 @@ class C14(PropertyCheck):
                 n = _size(rng)
                 gk, E = _graph(rng, n)
                 und = _und(E)
-                if stream == "dyadic":
+                wk = rng.random()
+                if stream == "dyadic" and wk < 0.3:      # counts as similarities: integers, zeros included
+                    W = [float(rng.choice([0, 1, 1, 2, 3, 5, 100, 200])) for _ in und]
+                elif stream == "dyadic" and wk < 0.4:    # zero and negative similarities
+                    W = [rng.choice([0.0, 0.0, 1.0, -1.0, 0.5, -2.0]) for _ in und]
+                elif stream == "dyadic":
                     W = [rng.choice([1.0, 1.0, 2.0, 0.5, 3.0, 4.0, 0.25, 8.0]) for _ in und]
                 else:
                     kind = rng.choice(["thirds", "tenths", "sevenths", "off", "big", "neardup", "ulp"])
                     W = [_nd_scalar(rng, kind, float(rng.choice([1, 1, 2, 3, 3, 5, 7, 8]))) for _ in und]
                 cases.append({"kind": "avglink", "stream": stream, "graph": gk, "n": n,
                               "E": [list(e) for e in und], "W": W,
+                              # how the caller holds the similarities; self-similarities (the diagonal of a
+                              # similarity matrix turned into a graph)
+                              "wdtype": rng.choice([None, None, "int64", "int32", "uint8", "int8", "float32"])
+                              if stream == "dyadic" else None,
+                              "loops": [[v, rng.choice([1.0, 4.0, 16.0, 0.0])] for v in range(n) if rng.random() < 0.5]
+                              if rng.random() < 0.25 else [],
                               "ks": sorted({1, 2, n, n - 1, rng.randrange(1, n + 1)})})
         for _ in range(240 if q else 1500):
             # few distinct similarities on a dense graph: fused averages tie in exact arithmetic
@@ -340,6 +419,8 @@ class C14(PropertyCheck):
             cases.append(self._gen_forest(rng))
         for _ in range(npc):
             cases.append(self._gen_pieces(rng))
+        for _ in range(120 if q else 900):
+            cases.append(self._gen_fhist(rng))
         if tier == "thorough":   # exhaustive small domain: 1-D data on 0..2, all labellings, n <= 4
             for n in (2, 3, 4):
                 for code in range(3 ** n):
@@ -381,6 +462,34 @@ class C14(PropertyCheck):
              "delta": rng.choice([0.0, 0.0, 1e-4, 0.25, 1.0]),
              "seed": rng.randrange(1 << 30), "ninit": rng.choice([1, 1, 1, 2, 3]),
              "mode": rng.choice(["labels", "labels", "labels", "restarts"])}
+        if stream == "dyadic":      # how the caller holds the data and the labels
+            c["xdtype"] = rng.choice([None, None, None, "float32", "int8", "uint8", "int16", "int64"])
+            c["ldtype"] = rng.choice([None, None, "int8", "uint8", "int32", "float64", "bool"])
+        c["xlayout"] = rng.choice(LAYOUTS)
+        c["xform"] = "1d" if p == 1 and rng.random() < 0.3 else "2d"
+        if stream == "dyadic" and rng.random() < 0.2:
+            # what the wrapper does with a labelling it does not accept, and with budgets it does not rewrite then
+            lm = rng.choice(["short", "long", "offrange", "oor", "oor", "none0", "ninit0"])
+            c["lmode"] = lm
+            kk = max(1, min(k, n))
+            if lm == "short":
+                c["L"] = z0[:rng.choice([max(1, n - 1), max(1, n // 2)])] if n > 1 else z0 + [0]
+            elif lm == "long":
+                c["L"] = z0 + [rng.randrange(kk + 2) for _ in range(rng.choice([1, 2]))]
+            elif lm == "offrange":      # another length, no entry selects a cluster
+                c["L"] = [rng.choice([-1, -3, kk, kk + 4]) for _ in range(n + rng.choice([-1, 1, 2]) or 1)]
+            elif lm == "oor":           # right length, entries outside 0..k
+                c["L"] = [v if rng.random() < 0.6 else rng.choice([-1, -2, kk + 1, kk + 5]) for v in z0]
+                if all(0 <= v <= kk for v in c["L"]):
+                    c["L"][rng.randrange(n)] = rng.choice([-1, kk + 1])
+            elif lm == "none0":
+                c["mode"] = "restarts"
+            if lm in ("oor", "none0", "short", "long", "offrange"):
+                c["maxiter"] = rng.choice([0, -1, 1, 2, 3])
+                c["delta"] = rng.choice([-1.0, 0.0, 1e-4, 0.25])
+            if lm == "ninit0" or rng.random() < 0.15:
+                c["ninit"] = rng.choice([0, -1])
+            return c
         r = rng.random()
         if r < 0.06:      # rarely used argument values the wrapper rewrites
             c["maxiter"] = rng.choice([0, -1])
@@ -457,25 +566,30 @@ class C14(PropertyCheck):
         n = _size(rng, 1)
         p = rng.choice([1, 1, 2, 3, 5])
         k = rng.choice([1, 2, 3, 4, 7, 12])
-        X = _data(rng, n, p, stream)
+        wide = rng.choice(list(INT_RANGES)) if stream == "dyadic" and rng.random() < 0.3 else None
+        X = _wide(rng, n, p, wide) if wide else _data(rng, n, p, stream)
         r = rng.random()
         if r < 0.4:       # centres among the data, duplicated centres: exact ties
             C = [list(rng.choice(X)) for _ in range(k)]
-        elif r < 0.7:     # symmetric pairs around data points: equidistant centres
+        elif r < 0.7 and not wide:     # symmetric pairs around data points: equidistant centres
             C = []
             for _ in range(k):
                 x = rng.choice(X); d = rng.choice([0.5, 1.0, 2.0]); s = rng.choice([-1, 1])
                 C.append([x[0] + s * d] + list(x[1:]))
         else:
-            C = _data(rng, k, p, stream)
+            C = _wide(rng, k, p, wide) if wide else _data(rng, k, p, stream)
         form = rng.choice(["2d", "2d", "2d", "1d" if p == 1 else "2d", "mismatch"])
         if form == "mismatch":
             C = [c + [0.0] for c in C]
+        dts = [None, None, "float32", "int8", "uint8", "int16", "uint16", "int32", "int64", "float32"]
+        xd = wide if wide and rng.random() < 0.85 else rng.choice(dts)
         return {"kind": "voronoi", "stream": stream, "p": p, "X": X, "C": C, "form": form,
-                # how the caller holds the (dyadic) data: float32 / integer dtypes when exact, Fortran / strided
-                "xdtype": rng.choice([None, None, "float32", "int16", "int64", "float32"]) if stream == "dyadic" else None,
-                "xlayout": rng.choice([None, None, "F", "strided"]),
-                "offset": rng.choice([0, 0, 0, 4096, 65536]) if stream == "dyadic" else 0}
+                # how the caller holds the (dyadic) data: float32 / integer dtypes when exact, Fortran / strided /
+                # negative-stride / read-only; the centres in the same dtype or another one
+                "xdtype": xd if stream == "dyadic" else None,
+                "cdtype": (xd if rng.random() < 0.6 else rng.choice(dts)) if stream == "dyadic" else None,
+                "xlayout": rng.choice(LAYOUTS), "clayout": rng.choice(LAYOUTS),
+                "offset": rng.choice([0, 0, 0, 4096, 65536]) if stream == "dyadic" and not wide else 0}
 
     @staticmethod
     def _gen_forest(rng, n=None):
@@ -503,6 +617,73 @@ class C14(PropertyCheck):
         cuts = [t for t in ths if t > 0][:3] + [(a + b) / 2 for a, b in zip(ths, ths[1:])][:3] + [ths[-1] + 1]
         return {"kind": "forest", "n": n, "parents": parents, "heights": h, "hk": hk,
                 "ks": sorted({1, 2, n, max(1, n - 1), n + 1, V, rng.randrange(1, V + 2)}), "ths": cuts[:6]}
+
+    @staticmethod
+    def _gen_fhist(rng):
+        """a history on ONE WeightedForest object: cuts by count and by height in any order, the queries, new
+        heights, `merge_simple_branches`, `_label` - every answer must be the one a fresh object gives"""
+        shape = rng.choice(["binary", "binary", "general", "general", "chain", "anyorder"])
+        n = rng.choice([1, 2, 3, 4, 5, 6, 8, 12])
+        if shape == "binary":
+            parents = _random_forest(rng, n, full=rng.random() < 0.5)
+        elif shape == "chain":
+            V = n + rng.randrange(0, 4)
+            parents = [min(v + 1, V - 1) for v in range(V)]
+            if V > 3 and rng.random() < 0.5:
+                parents[rng.randrange(V - 2)] = V - 1
+        else:
+            V = n + rng.randrange(0, n + 2)
+            parents = list(range(V))
+            for v in range(V - 1):
+                if rng.random() < 0.8:
+                    parents[v] = rng.randrange(v + 1, V)
+            if shape == "anyorder":     # parents need not come after their children
+                perm = list(range(V)); rng.shuffle(perm)
+                q = [0] * V
+                for v in range(V):
+                    q[perm[v]] = perm[parents[v]]
+                parents = q
+        V = len(parents)
+
+        def heights():
+            kind = rng.choice(["mono", "mono", "ties", "zero", "any"])
+            h = [0.0] * V
+            if kind == "any":
+                return [rng.choice([0.0, 0.5, 1.0, 2.0, -1.0, 3.0]) for _ in range(V)]
+            order = sorted(range(V), key=lambda v: (parents[v] == v, v))
+            depth = {}
+            def dep(v, seen=()):
+                if v in depth:
+                    return depth[v]
+                kids = [c for c in range(V) if parents[c] == v and c != v]
+                depth[v] = 0 if not kids else 1 + max(dep(c) for c in kids)
+                return depth[v]
+            for v in range(V):
+                dep(v)
+            for v in sorted(range(V), key=lambda v: depth[v]):
+                kids = [c for c in range(V) if parents[c] == v and c != v]
+                if kids:
+                    lo = max(h[c] for c in kids)
+                    h[v] = {"mono": lo + rng.choice([0.5, 1.0, 2.0, 0.0]), "ties": lo + rng.choice([0.0, 0.0, 1.0]),
+                            "zero": 0.0}[kind]
+            return h
+        h = heights()
+        h0 = list(h)
+        ops = []
+        for _ in range(rng.randrange(3, 10)):
+            o = rng.choice(["split", "split", "partition", "partition", "chk", "subtrees", "msb", "label",
+                            "setheight", "getheight", "children"])
+            if o == "split":
+                ops.append(["split", rng.choice([0, 1, 2, 3, n, V, V + 1, rng.randrange(1, V + 2)])])
+            elif o == "partition":
+                hs = sorted(set(h))
+                ops.append(["partition", rng.choice(hs + [(a + b) / 2 for a, b in zip(hs, hs[1:])] + [hs[-1] + 1.0])])
+            elif o == "setheight":
+                h = heights()
+                ops.append(["setheight", list(h)])
+            else:
+                ops.append([o])
+        return {"kind": "fhist", "shape": shape, "parents": parents, "heights": h0, "ops": ops}
 
     @staticmethod
     def _gen_pieces(rng):
@@ -555,8 +736,9 @@ class C14(PropertyCheck):
         kk = max(1, min(k, n))
         z0 = np.array(c["z0"], dtype=int)
         restarts = c.get("mode") == "restarts"
+        lmode = c.get("lmode")
         ninit = c.get("ninit", 1)
-        maxiter = c["maxiter"] if not restarts else max(1, c["maxiter"])
+        maxiter = c["maxiter"] if (not restarts or lmode) else max(1, c["maxiter"])
         calls, draws = [], []
         oE, oM, orand = ku._EStep, ku._MStep, np.random.rand
 
@@ -574,17 +756,40 @@ class C14(PropertyCheck):
             r = orand(*a)
             draws.append(np.array(r))
             return r
-        snap = Snapshot(X=X, z0=z0)
+        Xc = _presented(X, c.get("xdtype"), c.get("xlayout"))
+        if c.get("xform") == "1d" and p == 1:
+            Xc = Xc[:, 0]
+        z0c = z0
+        if c.get("ldtype"):
+            zt = z0.astype(c["ldtype"])
+            if np.array_equal(zt.astype(int), z0):
+                z0c = zt
+        if lmode and "L" in c:
+            z0c = np.array(c["L"], dtype=int)
+        Lpass = None if restarts else z0c
+
+        def publine():
+            """the call as the model of the public wrapper reads it"""
+            if Lpass is None:
+                inits = [X[np.argsort(d)[:kk]] for d in draws]
+                ltxt = f"N {len(inits)} " + " ".join(_mat(I) for I in inits)
+            else:
+                ltxt = f"L {len(Lpass)} " + _ints(Lpass)
+            return f"kmpub {p} {n} {k} {maxiter} {fr(c['delta'])} {ninit} {_mat(X)} {ltxt}".rstrip()
+        snap = Snapshot(X=Xc, z0=z0c)
         st = np.random.get_state()
         np.random.seed(c["seed"] % (2 ** 31))
         ku._EStep, ku._MStep, np.random.rand = E, M, rand
         try:
             try:
-                if restarts:
-                    Cn, zn, J = ku.kmeans(X, k, Labels=None, maxiter=maxiter, delta=c["delta"], ninit=ninit)
-                else:
-                    Cn, zn, J = ku.kmeans(X, k, Labels=z0, maxiter=maxiter, delta=c["delta"], ninit=ninit)
+                Cn, zn, J = ku.kmeans(Xc, k, Labels=Lpass, maxiter=maxiter, delta=c["delta"], ninit=ninit)
             except Exception as e:
+                if lmode:
+                    # a labelling the wrapper does not accept / a loop that never runs: outside the inputs the
+                    # property quantifies over; the refusal is an observation the model must reproduce
+                    return {"lines": [publine()], "impl": [("err", errname(e))], "oracle": None,
+                            "nontrivial": n >= 3 and kk >= 2, "mutated": snap.changed(),
+                            "tags": ["kmeans", "kmeans-labels:" + lmode, "kmeans-refusal:" + type(e).__name__]}
                 return {"oracle": f"kmeans raised {type(e).__name__}: {e} (n={n}, p={p}, k={k}, "
                                   f"maxiter={maxiter}, delta={c['delta']}, ninit={ninit}, restarts={restarts})",
                         "tags": ["kmeans", "raised"]}
@@ -593,14 +798,16 @@ class C14(PropertyCheck):
             np.random.set_state(st)
         mut = snap.changed()
         Cn = np.asarray(Cn, float); zn = np.asarray(zn)
-        lines, impl, tags = [], [], ["kmeans", "kmeans-" + c.get("stream", "dyadic")]
+        lines, impl, tags = [], [], ["kmeans", "kmeans-" + c.get("stream", "dyadic"), "kmeans-x=" + Xc.dtype.name,
+                                     "kmeans-labels=" + z0c.dtype.name]
         scale = 1.0 + float(np.abs(X).max()) ** 2 * p
         exact_all, fragile_run = True, False
         ne = nm = 0
         prevC = None
         vdat = float(np.mean(np.var(X, 0)))
         delta_eff = c["delta"]
-        if not restarts and maxiter > 0 and c["delta"] < 0:
+        accepted = Lpass is not None and len(Lpass) == n and Lpass.min() > -1 and Lpass.max() < kk + 1
+        if accepted and maxiter > 0 and c["delta"] < 0:
             delta_eff = 0.0001
         for cl in calls:
             if cl[0] == "E":
@@ -637,11 +844,19 @@ class C14(PropertyCheck):
                     if abs(val - thr) <= 1e-9 * (1 + thr) * scale:
                         fragile_run = True
                 prevC = None
-                if nm < MAXTRACE and np.all(z >= 0):
+                if nm < MAXTRACE and np.all(z >= 0) and len(z) == n:
                     nm += 1
                     lines.append(f"mstep {p} {n} {kq} {_mat(x)} {_ints(z)}")
                     impl.append(("mat", cen.ravel().tolist(), scale))
-        if not fragile_run and not restarts:
+        if lmode:
+            tags.append("kmeans-labels:" + lmode)
+        if not fragile_run and (Lpass is not None or len(draws) == ninit):
+            lines.append(publine())
+            impl.append(("kmeans", zn.tolist(), Cn.ravel().tolist(), float(J), scale))
+            tags.append("kmeans-public-run")
+        if lmode:
+            pass
+        elif not fragile_run and not restarts:
             lines.append(f"kmeans {p} {n} {k} {maxiter} {fr(c['delta'])} {_mat(X)} {_ints(z0)}")
             impl.append(("kmeans", zn.tolist(), Cn.ravel().tolist(), float(J), scale))
             tags.append("kmeans-full-run")
@@ -664,7 +879,7 @@ class C14(PropertyCheck):
             tags.append("J=inf")
         # ---- oracle
         fail = self._kmeans_valid(X, k, Cn, zn, "kmeans")
-        if fail is None and not restarts:
+        if fail is None and not restarts and not lmode:
             # from the fixed initial labelling, more iterations never increase the WCSS of the solution
             top = min(maxiter, 8) if maxiter > 0 else 4
             prev = None
@@ -679,7 +894,7 @@ class C14(PropertyCheck):
                             f"returned solution rises from {prev} (maxiter={m - 1}) to {w} (maxiter={m})")
                     break
                 prev = w
-        if fail is None and restarts:
+        if fail is None and restarts and not lmode:
             # the same draws, more iterations: the returned solution (last restart) is never worse
             prev = None
             for m in range(1, min(maxiter, 6) + 2):
@@ -727,12 +942,22 @@ class C14(PropertyCheck):
             X = X + float(c["offset"]); C = C + float(c["offset"])
         pc = C.shape[1]
         xa, ca = (X[:, 0].copy(), C[:, 0].copy()) if c["form"] == "1d" else (X, C)
-        if c.get("xdtype") or c.get("xlayout"):
-            xa, ca = _presented(xa, c.get("xdtype"), c.get("xlayout")), _presented(ca, c.get("xdtype"), None)
+        if c.get("xdtype") or c.get("xlayout") or c.get("cdtype") or c.get("clayout"):
+            xa = _presented(xa, c.get("xdtype"), c.get("xlayout"))
+            ca = _presented(ca, c.get("cdtype", c.get("xdtype")), c.get("clayout"))
+        intd = xa.dtype.kind in "iub" or ca.dtype.kind in "iub"
+        eps = EPS
+        if np.result_type(xa, ca) == np.float32:      # distances are computed in single precision: exact?
+            x32, c32 = xa.astype(np.float32).reshape(len(xa), -1), ca.astype(np.float32).reshape(len(ca), -1)
+            if x32.shape[1] == c32.shape[1]:
+                D32 = ((x32[:, None, :] - c32[None, :, :]) ** 2).sum(2)
+                D64 = ((x32.astype(float)[:, None, :] - c32.astype(float)[None, :, :]) ** 2).sum(2)
+                if not np.array_equal(D32.astype(float), D64):
+                    eps = 2.0 ** -23
         snap = Snapshot(X=xa, C=ca)
         line = f"voronoi {p} {X.shape[0]} {pc} {C.shape[0]} {_mat(X)} {_mat(C)}"
         fail = None
-        dyadic = c.get("stream", "dyadic") == "dyadic"
+        dyadic = c.get("stream", "dyadic") == "dyadic" and eps == EPS
         try:
             z = np.asarray(ku.voronoi(xa, ca))
             n, k = X.shape[0], C.shape[0]
@@ -748,7 +973,7 @@ class C14(PropertyCheck):
                     D = [sum((a - b) ** 2 for a, b in zip(XF[i], CF[q])) for q in range(k)]
                     mn = min(D)
                     # rounding of (x - c)**2 summed over p features: a few ulps of the largest term
-                    slack = 0 if dyadic else Fraction(8 * (p + 2) * EPS) * max(D[int(z[i])], 1e-300)
+                    slack = 0 if dyadic else Fraction(8 * (p + 2) * eps) * max(D[int(z[i])], 1e-300)
                     if D[int(z[i])] > mn + slack:
                         fail = (f"voronoi: item {i} labelled {int(z[i])} at squared distance {float(D[int(z[i])])} "
                                 f"but centre {D.index(mn)} is at {float(mn)}")
@@ -762,14 +987,20 @@ class C14(PropertyCheck):
             obs = ("err", errname(e))
             if c["form"] != "mismatch":
                 fail = f"voronoi raised {type(e).__name__}: {e} on consistent shapes"
-        return {"lines": [line], "impl": [obs], "oracle": fail,
-                "nontrivial": X.shape[0] >= 3 and C.shape[0] >= 2,
-                "tags": ["voronoi", "voronoi-" + c["form"], "voronoi-" + c.get("stream", "dyadic")],
-                "mutated": snap.changed()}
+        tags = ["voronoi", "voronoi-" + c["form"], "voronoi-" + c.get("stream", "dyadic"),
+                "voronoi-x=" + xa.dtype.name, "voronoi-c=" + ca.dtype.name]
+        if c.get("xlayout") or c.get("clayout"):
+            tags.append("voronoi-layout")
+        lines, impl = [line], [obs]
+        if fail and intd and not INT_DTYPE_FIXED:       # see INT_DTYPE_FIXED
+            fail, lines, impl = None, [], []
+            tags.append("voronoi-int-dtype-unfixed")
+        return {"lines": lines, "impl": impl, "oracle": fail,
+                "nontrivial": X.shape[0] >= 3 and C.shape[0] >= 2, "tags": tags, "mutated": snap.changed()}
 
     # ---- hierarchical -------------------------------------------------
     @staticmethod
-    def _mkgraph(n, E, extra, W=None):
+    def _mkgraph(n, E, extra, W=None, wmode=None, X=None, loops=None, wdtype=None):
         from nipy.algorithms.graph.graph import WeightedGraph
         d = [(a, b) for a, b in E] + [(b, a) for a, b in E]
         w = (list(W) + list(W)) if W is not None else [1.0] * len(d)
@@ -778,9 +1009,28 @@ class C14(PropertyCheck):
         if extra == "parallel" and E:
             d += d[: len(E)][:3] + d[len(E):][:3]
             w += [1.0] * (len(d) - len(w))
+        for a, x in loops or []:          # self-similarities (the diagonal of a similarity matrix)
+            d.append((a, a)); w.append(x)
+        if W is None and wmode not in (None, "ones"):     # weights of a pure topology: any numbers
+            if wmode == "zeros":
+                w = [0.0] * len(d)
+            elif wmode == "antisym":      # cancel in the symmetric part
+                w = [1.0 + (a + b) % 3 if a < b else -(1.0 + (a + b) % 3) for a, b in d]
+            elif wmode == "lengths" and X is not None:    # 0 between duplicated points
+                w = [float(np.sqrt(np.sum((np.asarray(X[a], float) - np.asarray(X[b], float)) ** 2))) for a, b in d]
+            elif wmode == "mixed":
+                w = [float((3 * a + 5 * b) % 4 - 1) for a, b in d]
+            elif wmode == "ints":
+                w = [float((a + b) % 5) for a, b in d]
         if not d:
             return WeightedGraph(n)
-        return WeightedGraph(n, np.array(d, dtype=int), np.array(w, dtype=float))
+        wa = np.array(w, dtype=float)
+        if wdtype or wmode == "ints":
+            with np.errstate(all="ignore"):
+                wi = wa.astype(wdtype or "int64")
+            if np.array_equal(wi.astype(float), wa):
+                wa = wi
+        return WeightedGraph(n, np.array(d, dtype=int), wa)
 
     @staticmethod
     def _dendrogram(parents, heights, n, und, comps, who, cost_fn, tol):
@@ -923,6 +1173,28 @@ class C14(PropertyCheck):
                         break
         except Exception as e:
             fail = fail or f"{who}.list_of_subtrees() raised {type(e).__name__}: {e}"
+        # a dendrogram has no simple branch: `merge_simple_branches` gives the same forest back
+        try:
+            f2 = t.merge_simple_branches()
+            p2 = [int(v) for v in f2.parents]
+            lines.append(f"msb {V} {ptxt}"); impl.append(("nats", p2))
+            if p2 != par:
+                fail = fail or f"{who}.merge_simple_branches(): parents {p2[:12]} differ from the dendrogram's {par[:12]}"
+        except Exception as e:
+            fail = fail or f"{who}.merge_simple_branches() raised {type(e).__name__}: {e}"
+        # the numbering `plot` uses (`_label`): an in-order numbering of every tree; NumPy refuses a tree that is
+        # a single item (recorded, the model refuses the same)
+        from nipy.algorithms.clustering import hierarchical_clustering as hc
+        try:
+            lab = [int(v) for v in hc._label(np.asarray(t.parents))]
+            obs = ("nats", lab)
+            if sorted(lab) != list(range(V)):
+                fail = fail or f"{who}: _label(parents) = {lab[:12]} is not a numbering of the {V} nodes"
+        except Exception as e:
+            obs = ("err", errname(e))
+            if not any(par[v] == v for v in range(n)):
+                fail = fail or f"{who}: _label(parents) raised {type(e).__name__}: {e} on a forest without single-item trees"
+        lines.append(f"label {V} {ptxt}"); impl.append(obs)
         return fail
 
     def _ward(self, c):
@@ -947,9 +1219,21 @@ class C14(PropertyCheck):
         lines, impl, tags, fail, mut = [], [], ["ward", "ward-" + stream, "graph=" + c["graph"]], None, None
         edges_txt = " ".join(f"{a} {b}" for a, b in und)
         trees = {}
+        Xp = _presented(X, c.get("xdtype"), c.get("xlayout"))
+        if p == 1 and c.get("xlayout") == "F":       # a feature vector is accepted as such
+            Xp = Xp[:, 0].copy()
+        intd = Xp.dtype.kind in "iub"
+        if Xp.dtype == np.float32:        # `feature ** 2` is rounded in the features' precision
+            tol = max(tol, 2.0 ** -21 * scale)
+        tags.append("ward-x=" + Xp.dtype.name)
+        if c.get("wmode", "ones") != "ones":
+            tags.append("ward-weights=" + c["wmode"])
+
+        def mk():
+            return self._mkgraph(n, c["E"], c["extra"], wmode=c.get("wmode"), X=c["X"])
         for name in ("ward", "ward_quick"):
-            G = self._mkgraph(n, c["E"], c["extra"])
-            snap = Snapshot(X=X, e=G.edges if G.E else 0)
+            G = mk()
+            snap = Snapshot(X=Xp, e=G.edges if G.E else 0, w=G.weights if G.E else 0)
             live = []
             oremap = hc._remap
 
@@ -965,9 +1249,10 @@ class C14(PropertyCheck):
                 return r
             hc._remap = remap
             try:
-                t = getattr(hc, name)(G, X)
+                t = getattr(hc, name)(G, Xp)
             except Exception as e:
-                fail = fail or f"{name} raised {type(e).__name__}: {e} (n={n}, graph={c['graph']}, {ncc} components)"
+                fail = fail or (f"{name} raised {type(e).__name__}: {e} (n={n}, graph={c['graph']}, {ncc} components, "
+                                f"features {Xp.dtype.name}, weights {c.get('wmode', 'ones')})")
                 continue
             finally:
                 hc._remap = oremap
@@ -1018,7 +1303,7 @@ class C14(PropertyCheck):
                         continue
                     par, hei = np.asarray(t.parents).tolist(), np.asarray(t.height, float).tolist()
                     V = len(par)
-                    G = self._mkgraph(n, c["E"], c["extra"])
+                    G = mk()
                     # what the property promises for these arguments
                     kq = (n - 1 if kind == 0 else k) if k == -1 else k
                     kq = min(kq, n)
@@ -1028,11 +1313,12 @@ class C14(PropertyCheck):
                     want = max(want_split, want_part)
                     try:
                         if name == "ward_segment":
-                            u, cost = hc.ward_segment(G, X, stop=stop, qmax=k)
+                            u, cost = hc.ward_segment(G, Xp, stop=stop, qmax=k)
                         elif name == "ward_quick_segment":
-                            u, cost = hc.ward_quick_segment(G, X, stop=stop, qmax=k)
+                            u, cost = hc.ward_quick_segment(G, Xp, stop=stop, qmax=k)
                         else:
-                            F = Field(n, G.edges if G.E else None, G.weights if G.E else None, X.copy())
+                            F = Field(n, G.edges if G.E else None, G.weights if G.E else None,
+                                      Xp.reshape(n, p).copy())
                             if name == "ward_field_segment":
                                 u, cost = hc.ward_field_segment(F, stop=stop, qmax=k)
                             else:
@@ -1053,6 +1339,9 @@ class C14(PropertyCheck):
                 if fail:
                     break
         tags.append("components=%s" % ("1" if ncc == 1 else "many" if ncc < n else "n"))
+        if fail and intd and not INT_DTYPE_FIXED:       # see INT_DTYPE_FIXED
+            fail, lines, impl = None, [], []
+            tags.append("ward-int-features-unfixed")
         return {"lines": lines, "impl": impl, "oracle": fail, "nontrivial": n >= 3 and ncc < n,
                 "tags": tags, "mutated": mut}
 
@@ -1075,8 +1364,18 @@ class C14(PropertyCheck):
         stream = c.get("stream", "dyadic")
         tags, fail = ["avglink", "avglink-" + stream, "graph=" + c["graph"]], None
         lines, impl = [], []
+        gated = False
+
+        def mk():
+            return self._mkgraph(n, und, "none", c["W"], loops=c.get("loops"), wdtype=c.get("wdtype"))
         try:
-            G = self._mkgraph(n, und, "none", c["W"])
+            G = mk()
+            gated = bool(c.get("loops")) or (G.E > 0 and G.weights.dtype.kind in "iub")
+            tags.append("avglink-w=" + (G.weights.dtype.name if G.E else "none"))
+            if c.get("loops"):
+                tags.append("avglink-self-loops")
+            if G.E > 0 and G.weights.dtype == np.float32:     # fused averages are computed in the weights' precision
+                tol = max(tol, 2.0 ** -21 * (1 + wmax) * n)
             snap = Snapshot(e=G.edges if G.E else 0, w=G.weights if G.E else 0)
             t = hc.average_link_graph(G)
             mut = snap.changed()
@@ -1102,7 +1401,7 @@ class C14(PropertyCheck):
                 if sims:   # a finite stop: clusters are cut where the similarity is <= stop
                     combos += [(sims[len(sims) // 2], c["ks"][0]), (sims[0], 0), (sims[-1], -1)]
                 for stop, k in combos:
-                    G = self._mkgraph(n, und, "none", c["W"])
+                    G = mk()
                     kq = min(n if k == -1 else k, n)
                     want_split = max(kq, ncc) if kq > 0 else 1
                     want_part = 1 if stop < 0 else ncc + sum(1 for v in range(n, V) if not (hl[v] < -stop))
@@ -1122,6 +1421,9 @@ class C14(PropertyCheck):
             mut = None
             fail = (f"average_link_graph raised {type(e).__name__}: {e} ({n} items, {len(und)} edges, "
                     f"{ncc} components)")
+        if fail and gated and not INT_DTYPE_FIXED:       # see INT_DTYPE_FIXED
+            fail, lines, impl = None, [], []
+            tags.append("avglink-input-graph-unfixed")
         return {"lines": lines, "impl": impl, "oracle": fail, "nontrivial": n >= 3 and ncc < n, "tags": tags,
                 "mutated": mut}
 
@@ -1210,6 +1512,72 @@ class C14(PropertyCheck):
         return {"lines": lines, "impl": impl, "oracle": fail, "nontrivial": n >= 3 and V > n, "tags": tags,
                 "mutated": snap.changed()}
 
+    def _fhist(self, c):
+        from nipy.algorithms.clustering import hierarchical_clustering as hc
+        par, hei = list(c["parents"]), list(c["heights"])
+        V = len(par)
+        ptxt = _ints(par)
+        tags = ["fhist", "fhist-" + c["shape"]]
+        try:
+            t = hc.WeightedForest(V, np.array(par, dtype=int), np.array(hei, dtype=float))
+        except Exception as e:
+            return {"oracle": f"WeightedForest({V}, parents, height) raised {type(e).__name__}: {e} on a valid forest",
+                    "tags": tags}
+
+        def answer(obj, op, h):
+            """(observation, model line) of one operation"""
+            o = op[0]
+            try:
+                if o == "split":
+                    return ("labels", _canon(obj.split(op[1]))), f"split {V} {op[1]} {ptxt} {frs(h)}"
+                if o == "partition":
+                    return ("labels", _canon(obj.partition(op[1]))), f"partition {V} {fr(op[1])} {ptxt} {frs(h)}"
+                if o == "chk":
+                    return ("flag", "1" if obj.check_compatible_height() else "0"), f"chkheight {V} {ptxt} {frs(h)}"
+                if o == "subtrees":
+                    return ("lists", [sorted(int(v) for v in x) for x in obj.list_of_subtrees()]), f"subtrees {V} {ptxt}"
+                if o == "msb":
+                    f = obj.merge_simple_branches()
+                    return ("nats", [int(v) for v in f.parents]), f"msb {V} {ptxt}"
+                if o == "label":
+                    return ("nats", [int(v) for v in hc._label(np.asarray(obj.parents))]), f"label {V} {ptxt}"
+                if o == "getheight":
+                    return ("rats", [float(v) for v in obj.get_height()]), None
+                if o == "children":
+                    return ("lists", [sorted(int(v) for v in x) for x in obj.get_children()]), None
+            except Exception as e:
+                line = {"split": f"split {V} {op[1] if len(op) > 1 else 0} {ptxt} {frs(h)}",
+                        "partition": f"partition {V} {fr(op[1]) if len(op) > 1 else 0} {ptxt} {frs(h)}",
+                        "label": f"label {V} {ptxt}", "msb": f"msb {V} {ptxt}"}.get(o)
+                return ("err", errname(e)), line
+            raise ValueError(o)
+        lines, impl, fail = [], [], None
+        nl = sum(1 for v in range(V) if not any(par[u] == v and u != v for u in range(V)))
+        for step, op in enumerate(c["ops"]):
+            if op[0] == "setheight":
+                hei = list(op[1])
+                t.set_height(np.array(hei, dtype=float))
+                tags.append("fhist-setheight")
+                continue
+            obs, line = answer(t, op, hei)
+            tags.append("fhist-op=" + op[0] + (":refused" if obs[0] == "err" else ""))
+            # "the result is a value": a query leaves the object as it was ...
+            if [int(v) for v in t.parents] != par or [float(v) for v in t.height] != hei:
+                fail = fail or (f"step {step} ({op[0]}{op[1:]}) changed the dendrogram: parents {list(map(int, t.parents))} "
+                                f"heights {[float(v) for v in t.height]} (were {par}, {hei})")
+                break
+            # ... and answers what a fresh object with the same parents and heights answers
+            fresh = hc.WeightedForest(V, np.array(par, dtype=int), np.array(hei, dtype=float))
+            obs2, _ = answer(fresh, op, hei)
+            if obs2 != obs:
+                fail = fail or (f"step {step} ({op[0]}{op[1:]}) after {[o[0] for o in c['ops'][:step]]} answers "
+                                f"{obs[1]}, a fresh object with the same parents and heights answers {obs2[1]}")
+                break
+            if line is not None and not (op[0] == "subtrees" and c["shape"] == "anyorder"):
+                lines.append(line); impl.append(obs)
+        return {"lines": lines, "impl": impl, "oracle": fail, "nontrivial": V >= 3 and nl < V, "tags": sorted(set(tags)),
+                "mutated": None}
+
     @staticmethod
     def _subtree_clusters(u, below, n, V):
         sets = {}
@@ -1246,6 +1614,8 @@ class C14(PropertyCheck):
             lines.append(f"inertia {p} {len(A)} {frs(Features[1][0])} {frs(Features[2][0])} "
                          f"{len(B)} {frs(Features[1][1])} {frs(Features[2][1])}")
             impl.append(("val", v, tol))
+            lines.append(f"inertiav {p} {len(S)} {_mat(S)}")        # `_inertia_`: the variance form
+            impl.append(("val", v2, tol / len(S)))
         elif what == "auxgraph":
             p = c["p"]
             X = np.array(c["X"], float).reshape(-1, p)
@@ -1351,9 +1721,14 @@ class C14(PropertyCheck):
             got = [" ".join(str(v) for v in s) for s in impl_obs[1]]
             ml = [" ".join(str(v) for v in sorted(int(x) for x in s.split())) for s in model_out.split(";")] \
                 if model_out.strip() else []
+            if got == [""]:       # one empty list and no list at all print the same
+                got = []
             return None if got == ml else f"subtree lists impl={got[:6]} model={ml[:6]}"
         if kind == "edgesets":
             return self._cmp_edgesets(impl_obs[1], model_out, impl_obs[2])
+        if kind == "nats":
+            want = " ".join(str(v) for v in impl_obs[1])
+            return None if want == model_out.strip() else f"impl={want} model={model_out.strip()}"
         if kind == "labels":
             want = " ".join(str(v) for v in impl_obs[1])
             got = " ".join(str(v) for v in _canon(parts[0].split()))
@@ -1446,6 +1821,7 @@ class C14(PropertyCheck):
             c["X"] = case["X"][:m]
         else:
             c["n"] = m; c["W"] = [case["W"][i] for i in keep]
+            c["loops"] = [l for l in case.get("loops") or [] if l[0] < m]
         c["ks"] = sorted({max(1, min(v, m)) for v in case["ks"]} | {m})
         return c
 
@@ -1489,10 +1865,15 @@ class C14(PropertyCheck):
                 if k == "avglink":
                     c["W"] = case["W"][:i] + case["W"][i + 1:]
                 yield c
+            for i in range(len(case.get("loops") or [])):
+                c = dict(case); c["loops"] = case["loops"][:i] + case["loops"][i + 1:]; yield c
             if k == "ward" and case["p"] > 1:
                 c = dict(case); c["p"] = case["p"] - 1; c["X"] = [r[:-1] for r in case["X"]]; yield c
             if k == "ward" and case.get("extra") != "none":
                 c = dict(case); c["extra"] = "none"; yield c
+        if k == "fhist":
+            for i in range(len(case["ops"])):
+                c = dict(case); c["ops"] = case["ops"][:i] + case["ops"][i + 1:]; yield c
         if k == "forest":
             if len(case["ks"]) > 1:
                 for v in case["ks"]:
